@@ -302,6 +302,25 @@ def core_units():
     return u
 
 
+JOIN_STEPS = fn("join_steps", "r", attrs="#[verifier::loop_isolation(false)]\n",
+                requires=["result_vars@.len() == self.depths@.len()", "result_pats@.len() == self.depths@.len()", "self.branch_count == self.depths@.len()",
+                          "self.max_step_count >= 1", "self.depths@.len() >= 1"],
+                ensures=[],
+                subst=[{"find": "<TPat: ToTokens + Clone, TVar: ToTokens + Clone, TName: ToTokens>", "replace": "",
+                        "why": "monomorphised at the only instantiation (ToTokens for JoinOutput passes Vec<TokenStream>, Vec<Ident>, Ident)", "sig": True},
+                       {"find": "&[TPat]", "replace": "&[TokenStream]", "why": "monomorphisation", "sig": True},
+                       {"find": "&[TVar]", "replace": "&[Ident]", "why": "monomorphisation", "sig": True},
+                       {"find": "&TName", "replace": "&Ident", "why": "monomorphisation", "sig": True},
+                       {"find": "let &Self {\n            transpose,\n            max_step_count,\n            branch_count,\n            ..\n        } = self;",
+                        "replace": "let transpose = self.transpose; let max_step_count = self.max_step_count; let branch_count = self.branch_count;",
+                        "why": "Verus does not support reference patterns; same bindings"}],
+                closures={
+                    "|&(index, _)|": {"id": "P", "params": ["&(usize, &Ident)"], "ret": "(r: bool)"},
+                    "|(index, (_, result_var))|": {"id": "F", "params": ["(usize, (usize, &Ident))"], "ret": "(r: (TokenStream, TokenStream))"},
+                    "|(index, result_var)|": {"id": "C", "params": ["(usize, &Ident)"], "ret": "(r: Option<Ident>)"},
+                }, iter_loops={"0": {}, "1": {}, "2": {}})
+
+
 def gen_units():
     """join_output.rs: the functions of the generator that are within Verus' reach (P1 + P2)"""
     u = []
@@ -437,6 +456,9 @@ def gen_units():
         fn("is_block_expr", "r", ensures=["r == (expr is Block)"]),
         fn("is_lower_precedence_than_method_call", "r", ensures=["r == low_prec(*expr)"]),
     ]))
+    # C04 / C05 / C06 / C12: how one step is joined with the next (monomorphised at TPat = TokenStream, TVar = TName = Ident,
+    # the only instantiation: ToTokens for JoinOutput)
+    u.append(fns(F_JO, [JOIN_STEPS], self_ty="JoinOutput"))
     # C03: where a step begins: the fold of `JoinOutput::new` that splits a branch's members at the `~` marks (R15 + R13)
     u.append(ty(F_CHAIN, "ActionExprChain"))
     u.append(fns(F_CHAIN, [
